@@ -70,7 +70,8 @@ CLAIMED = {
              'levels, hierarchical APTable, AF, MAIR memory type, 40-bit output address) and exercised with random 64-bit tables '
              '(successful translations are compared exactly; every long-descriptor-format FAULT reaches the emulator\'s documented '
              'mock hook tlb_lookup_came_from_cache_maintenance, so only the decision fault / no fault is compared, not DFSR); '
-             'MC_VMSA model-checks the short-descriptor walk only; stage 2 translation and faults taken to Hyp mode are reported '
+             'MC_LPAE model-checks the long-descriptor walk (walk shapes x T0SZ x EPD0 x APTable x AP x AF x indices: fault decision, '
+             'hierarchical permission, output address by block size; 3.5e5 states); stage 2 translation and faults taken to Hyp mode are reported '
              'as unmodelled and not claimed; with SCTLR.TRE = 0 the emulator reaches its documented mock hook (outcome notimpl); memory '
              'attributes other than the memory type used for alignment faults are not compared.',
         technique='TLC model checking of the VMSA spec + TLC trace validation of translate_address() and loads/stores',
